@@ -16,6 +16,7 @@ from .sink import (
   ClientMessageSink,
   ClientMessageSinkStack
 )
+from .timer_queue import GLOBAL_TIMER_QUEUE
 from .varz import (
   Rate,
   Source,
@@ -171,12 +172,43 @@ class MessageDispatcher(ClientMessageSink):
     if self._open_ar.ready():
       return self._DispatchMethod(method, args, kwargs, timeout, start_time)
     else:
-      # _DispatchMethod returns an AsyncResult, so we end up with an
-      # AsyncResult<AsyncResult<TRet>>, Unwrap() removes one layer, yielding
-      # an AsyncResult<TRet>
-      return self._open_ar.ContinueWith(
-          lambda ar: self._DispatchMethod(method, args, kwargs, timeout, start_time)
-      ).Unwrap()
+      return self._DispatchMethodAfterOpen(method, args, kwargs, timeout, start_time)
+
+  def _DispatchMethodAfterOpen(self, method, args, kwargs, timeout, start_time):
+    """Dispatch a call made before Open() completed once it does.
+
+    The call's timeout keeps running while it waits: if Open() has not completed
+    by then the call fails with a TimeoutError and is never dispatched.
+    """
+    ret = AsyncResult()
+
+    def on_timeout():
+      if not ret.ready():
+        ret.set_exception(TimeoutError())
+
+    cancel_timeout = None
+    if timeout:
+      cancel_timeout = GLOBAL_TIMER_QUEUE.Schedule(start_time + timeout, on_timeout)
+
+    def dispatch(_):
+      if cancel_timeout:
+        cancel_timeout()
+      if not ret.ready():
+        return self._DispatchMethod(method, args, kwargs, timeout, start_time)
+
+    def complete(call_ar):
+      if ret.ready():
+        return
+      if call_ar.successful():
+        ret.set(call_ar.value)
+      else:
+        ret.set_exception(call_ar.exception)
+
+    # _DispatchMethod returns an AsyncResult, so we end up with an
+    # AsyncResult<AsyncResult<TRet>>, Unwrap() removes one layer, yielding
+    # an AsyncResult<TRet>
+    self._open_ar.ContinueWith(dispatch).Unwrap().rawlink(complete)
+    return ret
 
   @staticmethod
   def StaticDispatchMessage(sink, source, start_time, deadline, disp_msg):
